@@ -6,6 +6,8 @@ import (
 	"context"
 	"io"
 	"os"
+	"os/exec"
+	"path/filepath"
 	"sort"
 	"strings"
 
@@ -91,5 +93,29 @@ func hTar(o Op) map[string]interface{} {
 		members = append(members, m)
 	}
 	res["members"] = members
+	if o.boolean("extract") {
+		// "extracting it reproduces the view": hand the archive to an independent extractor (GNU tar, as root) and snapshot the result
+		xdir := newScratch("untar")
+		defer func() { exec.Command("rm", "-rf", xdir).Run() }()
+		arch := filepath.Join(xdir, "a.tar")
+		out := filepath.Join(xdir, "out")
+		if err := os.WriteFile(arch, buf.Bytes(), 0600); err != nil {
+			res["xerr"] = err.Error()
+			return res
+		}
+		os.Mkdir(out, 0755)
+		cmd := exec.Command("tar", "-x", "-p", "--same-owner", "--numeric-owner", "--xattrs", "--xattrs-include=*", "--delay-directory-restore", "-f", arch, "-C", out)
+		cmd.Env = append(os.Environ(), "LC_ALL=C")
+		if b, err := cmd.CombinedOutput(); err != nil {
+			res["xerr"] = err.Error() + ": " + string(b)
+			return res
+		}
+		snap, err := snapshot(out, true)
+		if err != nil {
+			res["xerr"] = "snapshot: " + err.Error()
+			return res
+		}
+		res["extracted"] = snapsToJSON(snap)
+	}
 	return res
 }
